@@ -74,6 +74,11 @@ def make_state(typ, nv, nh=2, na=2):
     return DensityMatrix(nv, nh, na, gpu=False)
 
 
+def fx(v):
+    """real tensor -> list of 1e-6 fixed-point integers"""
+    return [int(round(float(x) * 1e6)) for x in v.detach().reshape(-1).tolist()]
+
+
 def param_hash(nn_state):
     h = []
     for net in nn_state.networks:
@@ -241,13 +246,29 @@ def observe(nn_state, R, numeric=False, force=None):
                   neg=[row_code(r) for r in neg_batch.tolist()])
         R.hist.append(ev)
         if numeric:
-            num = R.numeric_hook(nn_state, k, samples_batch, neg_batch, bases_batch)
+            if bases_batch is None:
+                pos = nn_state.positive_phase_gradients(samples_batch)
+            else:
+                pos = nn_state.positive_phase_gradients(samples_batch, bases_batch)
+            num = dict(posAm=fx(pos[0]), posPh=fx(pos[1]) if len(pos) > 1 and torch.is_tensor(pos[1]) else [],
+                       nb=int(neg_batch.shape[0]))
+            gcap.clear()
         if bases_batch is None:
             g = cls_cbg(nn_state, k, samples_batch, neg_batch, *a, **kw)
         else:
             g = cls_cbg(nn_state, k, samples_batch, neg_batch, bases_batch, *a, **kw)
         if numeric:
-            num["grad"] = [x.clone() for x in g]
+            num["gradAm"] = fx(g[0])
+            num["gradPh"] = fx(g[1]) if len(g) > 1 and torch.is_tensor(g[1]) else []
+            if len(gcap) != 1:
+                num["gibbs_calls"] = len(gcap)          # not exactly one chain run: no spec counterpart
+                num["k"], num["ginit"], num["negSum"] = -1, [], []
+            else:
+                gk, ginit, vk = gcap[0]
+                num["k"] = int(gk)
+                num["ginit"] = [row_code(r) for r in ginit.tolist()]
+                num["negSum"] = fx(nn_state.rbm_am.effective_energy_gradient(vk))
+            num["assigned"] = []
             R.numeric.append(num)
         return g
 
@@ -259,11 +280,43 @@ def observe(nn_state, R, numeric=False, force=None):
             if ps and ps[0] is first:
                 which = i + 1
         R.hist.append(dict(k="AS", ep=R.ep, b=R.b, net=which))
-        if numeric:
-            R.numeric[-1].setdefault("assigned", []).append((which, vec.clone()))
+        if numeric and R.numeric:
+            R.numeric[-1]["assigned"].append(fx(vec))
         return orig_v2g(vec, iter(ps))
 
+    gcap = []
+    rbm = nn_state.rbm_am
+    orig_gibbs = type(rbm).gibbs_steps
+
+    def gibbs(k, initial_state, overwrite=False):
+        init_copy = initial_state.clone()
+        out = orig_gibbs(rbm, k, initial_state, overwrite=overwrite)
+        gcap.append((k, init_copy, out.clone()))
+        return out
+
+    def pre_step(opt):
+        x = R.numeric[-1]
+        x["lr"] = int(round(opt.param_groups[0]["lr"] * 1e6))
+        x["_lr"] = opt.param_groups[0]["lr"]
+        x["shapes"], x["pgrad"], x["_before"] = [], [], []
+        for net in nn_state.networks:
+            ps = list(getattr(nn_state, net).parameters())
+            x["shapes"].append([int(p.numel()) for p in ps])
+            x["pgrad"].append([fx(p.grad) if p.grad is not None else [] for p in ps])
+            x["_before"].append([p.detach().clone() for p in ps])
+
+    def post_step(opt):
+        x = R.numeric[-1]
+        x["dlr"] = []
+        for net, before in zip(nn_state.networks, x.pop("_before")):
+            ps = list(getattr(nn_state, net).parameters())
+            x["dlr"].append([fx((b0 - p.detach()) / x["_lr"]) for b0, p in zip(before, ps)])
+        x.pop("_lr")
+
     try:
+        if numeric:
+            object.__setattr__(rbm, "gibbs_steps", gibbs)
+            R.on_pre_step, R.on_post_step = pre_step, post_step
         torch.randperm, torch.randint = randperm, randint
         ns_mod.vector_to_grads = v2g
         for name, fn in (("_shuffle_data", shuffle), ("compute_batch_gradients", cbg)):
@@ -271,6 +324,8 @@ def observe(nn_state, R, numeric=False, force=None):
             nn_state.__dict__[name] = fn
         yield
     finally:
+        if numeric:
+            rbm.__dict__.pop("gibbs_steps", None)
         torch.randperm, torch.randint = orig_randperm, orig_randint
         ns_mod.vector_to_grads = orig_v2g
         for name, old in inst_attrs.items():
@@ -450,7 +505,7 @@ def real_run(cfg, plan=(), seed=0, k=1, lr=0.05, numeric_hook=None, time_flag=Fa
             kwargs["input_bases"] = bases
         err = None
         out = io.StringIO()
-        with observe(nn_state, R, numeric=numeric_hook is not None, force=force), contextlib.redirect_stdout(out):
+        with observe(nn_state, R, numeric=bool(numeric_hook), force=force), contextlib.redirect_stdout(out):
             try:
                 nn_state.fit(data, **kwargs)
             except Exception as ex:     # reported by the caller, never swallowed silently
